@@ -108,10 +108,11 @@ type vfRule struct {
 }
 
 type vfFaults struct {
-	PosFromMs int       `json:"posfrom,omitempty"` // positional faults count packets sent at or after this instant only
-	Pos       [2][]vfFD `json:"pos"`
-	Rules     []vfRule  `json:"rules,omitempty"`
-	HealMs    int       `json:"heal,omitempty"` // no fault is applied at or after this instant (0 = never heals by time; positional faults end by count)
+	PosFromMs  int       `json:"posfrom,omitempty"`    // positional faults count packets sent at or after this instant only
+	PosRelBase bool      `json:"posrelbase,omitempty"` // PosFromMs is relative to the establishment instant
+	Pos        [2][]vfFD `json:"pos"`
+	Rules      []vfRule  `json:"rules,omitempty"`
+	HealMs     int       `json:"heal,omitempty"` // no fault is applied at or after this instant (0 = never heals by time; positional faults end by count)
 }
 
 type vfAct struct {
@@ -222,6 +223,7 @@ type vfSim struct {
 	notes    []string
 	accepted [2]int
 	role     [2]int             // 0 default (side 0 client, side 1 server), 1 client, 2 server
+	baseOff  time.Duration      // establishment instant relative to the start of the simulation
 	onRead   func(r *vfReadRec) // called under s.mu
 }
 
@@ -268,7 +270,16 @@ func (s *vfSim) installFaults() {
 		idx := ev.N
 		if f.PosFromMs > 0 {
 			idx = -1
-			if ev.T >= time.Duration(f.PosFromMs)*time.Millisecond {
+			from := time.Duration(f.PosFromMs) * time.Millisecond
+			ok := true
+			if f.PosRelBase {
+				s.mu.Lock()
+				bo := s.baseOff
+				s.mu.Unlock()
+				ok = bo > 0
+				from += bo
+			}
+			if ok && ev.T >= from {
 				idx = posCount[ev.Side]
 				posCount[ev.Side]++
 			}
@@ -459,6 +470,9 @@ func (s *vfSim) handshake(horizon time.Duration) bool {
 
 func (s *vfSim) afterEstablished() {
 	s.base = time.Now()
+	s.mu.Lock()
+	s.baseOff = s.base.Sub(s.net.start)
+	s.mu.Unlock()
 	for side := 0; side < 2; side++ {
 		if !s.sc.NoAcc[side] && s.as[side] != nil {
 			side := side
